@@ -12,10 +12,21 @@ Expected value in default units = float(number) * float(unit factor text) * floa
 Extra text around a valid unit ('3 4 m', '3 m m', '3 k Hz', '3 feet inches', two blanks) is "any other unit text": an error
 is expected (C11.reject.extra_text_before_unit / C11.reject.extra_blank_before_unit), silence is a failure.
 
+Numerals (part 'numerals'): what counts as "a number".  sign x mantissa x exponent shapes (SIGNS, MANTISSAS, EXPONENTS) are
+crossed with unit kinds (valid, prefixed, plural, invalid, none) over every unit tag the LOADED schema reports (tags with a
+unit class but no value class included).  A numeral is valid iff float() accepts it and it matches the decimal-numeral
+grammar of the specification.  valid numeral + valid unit -> no issue, split = [numeral, unit], value = float(numeral) x
+factors; invalid unit -> UNITS_INVALID whatever the numeral; no unit -> the UNITS_MISSING warning; ill-formed numeral on a
+numericClass tag -> VALUE_INVALID, and the conversion is None (never an exception) when float() rejects the text.  A
+mismatch on a valid numeral is blamed on the numeral (C11.numeral.valid_shape_accepted) only if the same tag and unit pass
+with the numeral '1'; otherwise on the unit spelling clause.
+
 Real side: HedValidator.validate(HedString(...)), HedTag.get_stripped_unit_value, HedTag.value_as_default_unit.
 """
 import math
+import multiprocessing
 import os
+import re
 import shutil
 import tempfile
 import xml.etree.ElementTree as ET
@@ -502,6 +513,220 @@ def eval_extra_text(w, version, tag, classes, literals, mods_filter=None, count=
 
 
 # ----------------------------------------------------------------------------------------------------------------
+# numeral shapes: what counts as "a number" in front of (or without) a unit
+# ----------------------------------------------------------------------------------------------------------------
+SIGNS = ["", "+", "-"]
+MANTISSAS = ["1", "1.", "1.5", ".5", "0", "007"]
+EXPONENTS = ["", "e3", "E3", "e+3", "E+3", "e-3", "e+03", "e", "e+"]
+UNIT_KINDS = ["valid", "prefixed", "plural", "invalid", "none"]
+# the decimal-numeral grammar of the HED specification (numericClass): optional sign, digits with optional fraction (or a
+# fraction alone), optional exponent with optional sign - written here from that description, ASCII digits
+_NUMERAL = re.compile(r"[+-]?(?:[0-9]+(?:\.[0-9]*)?|\.[0-9]+)(?:[eE][+-]?[0-9]+)?")
+L_NUM_OK = "C11.numeral.valid_shape_accepted"
+L_NUM_BAD = "C11.numeral.invalid_shape_reported"
+L_NUM_NONE = "C11.conv.not_a_number_is_none"
+_num_stats = {}
+_ref_cache = {}
+
+
+def all_numerals():
+    return [sg + m + e for sg in SIGNS for m in MANTISSAS for e in EXPONENTS]
+
+
+def float_accepts(text):
+    try:
+        float(text)
+    except ValueError:
+        return False
+    return True
+
+
+def numeral_is_valid(text):
+    """a numeral is valid iff Python's float() accepts it AND it matches the decimal-numeral grammar"""
+    return float_accepts(text) and _NUMERAL.fullmatch(text) is not None
+
+
+def schema_unit_tags(version):
+    """ask the loaded schema (not the XML) which value-taking tags have unit classes:
+    -> list of dict(tag, classes, value_classes, deprecated) in schema order"""
+    s, _ = real(version)
+    out = []
+    for name, entry in s.tags.items():
+        if not name.endswith("/#") or not entry.unit_classes:
+            continue
+        out.append({"tag": entry.short_tag_name, "classes": list(entry.unit_classes),
+                    "value_classes": list(entry.value_classes), "deprecated": bool(entry.has_attribute("deprecatedFrom"))})
+    return out
+
+
+def numeral_unit_choices(orc, classes, rot):
+    """-> {kind: (unit text, stands before the number)}: one unit text per kind for the tag's unit classes, chosen by the
+    rotation number from the units / permitted prefixes / plurals the XML declares; a kind the classes cannot supply is
+    left out.  'invalid' rotates over: garbage, a valid unit with a letter appended, a unit of a class the tag does not take."""
+    units = [u for c in classes for u in orc.x["classes"][c]["units"] if not u["deprecated"] and " " not in u["name"]]
+    out = {}
+    if units:
+        u = units[rot % len(units)]
+        out["valid"] = (u["name"], u["before"])
+        pref = [(u2, m) for u2 in units for m in orc.permitted_mods(u2)]
+        if pref:
+            u2, m = pref[(rot * 7) % len(pref)]
+            out["prefixed"] = (m["name"] + u2["name"], u2["before"])
+        plur = [u2 for u2 in units if not u2["symbol"] and u2["name"].lower() in PLURALS]
+        if plur:
+            u2 = plur[rot % len(plur)]
+            out["plural"] = (PLURALS[u2["name"].lower()], u2["before"])
+    foreign = [u["name"] for c, cd in orc.x["classes"].items() if c not in classes for u in cd["units"]
+               if " " not in u["name"]]
+    cands = ["foo"] + ([units[rot % len(units)]["name"] + "x"] if units else []) + \
+        ([foreign[rot % len(foreign)]] if foreign else [])
+    cands = [t for t in cands if orc.interpretations(t, classes) == ([], False)]
+    if cands:
+        out["invalid"] = (cands[rot % len(cands)], False)
+    out["none"] = (None, False)
+    # the kinds that claim acceptance must be spellings the property accepts (and only one way round)
+    for kind in ("valid", "prefixed", "plural"):
+        if kind in out:
+            readings, und = orc.interpretations(out[kind][0], classes)
+            if not readings or und or any(r[0]["before"] != out[kind][1] for r in readings):
+                del out[kind]
+    return out
+
+
+def _numeral_text(tag, numeral, unit_text, before):
+    if unit_text is None:
+        return tag + "/" + numeral
+    return tag + "/" + ((unit_text + " " + numeral) if before else (numeral + " " + unit_text))
+
+
+def eval_numeral(w, version, t, numeral, kind, unit_text, before, count=True):
+    """one annotation 'Tag/<numeral> <unit>' (or '<unit> <numeral>' for a prefix-type unit, or the bare numeral)"""
+    orc = oracle(version)
+    tag, classes, vcs = t["tag"], t["classes"], t["value_classes"]
+    text = _numeral_text(tag, numeral, unit_text, before)
+    valid = numeral_is_valid(numeral)
+    numeric = "numericClass" in vcs
+    inp = {"part": "numerals", "schema": version, "tag": tag, "classes": classes, "value_classes": vcs, "kind": kind,
+           "unit": unit_text, "before": before, "numeral": numeral, "numeral_valid": valid, "text": text}
+    if count:
+        w.case(key=("num", version, text), nontrivial=True,
+               sample={"schema": version, "text": text, "numeral_valid": valid, "unit_kind": kind})
+        k = ("valid" if valid else "invalid") + " numeral/" + kind
+        _num_stats[k] = _num_stats.get(k, 0) + 1
+    obs = observe(version, text)
+    if not w.check("validate_exc" not in obs, "C11.total.validate_no_exception", inp, obs.get("validate_exc"), "no exception"):
+        return
+    got = obs["issues"]
+    errs = [c for c, sev in got if sev == "E"]
+    unit_ok = kind in ("valid", "prefixed", "plural")
+    readings = orc.interpretations(unit_text, classes)[0] if unit_ok else []
+
+    def reference_ok():
+        """does the same tag and unit pass with the plain numeral '1'?  (then a mismatch is about the numeral)"""
+        key = (version, tag, unit_text, before)
+        if key not in _ref_cache:
+            o = observe(version, _numeral_text(tag, "1", unit_text, before))
+            _ref_cache[key] = o.get("issues") == ([] if unit_text is not None else [("UNITS_MISSING", "W")])
+        return _ref_cache[key]
+
+    # ---- what the validator says
+    if unit_ok:
+        if valid:
+            if got != []:
+                if reference_ok():
+                    clause = L_NUM_OK
+                elif before:
+                    clause = "C11.accept.prefix_unit_before_number"
+                elif all(not r[0]["symbol"] for r in readings):
+                    clause = "C11.accept.name_any_case_singular_plural"
+                else:
+                    clause = "C11.accept.symbol_exact_with_prefix"
+                w.fail(clause, inp, got, [])
+            else:
+                w.check(obs["split"] == [numeral, unit_text], "C11.split.value_and_unit", inp, obs["split"],
+                        [numeral, unit_text])
+        elif numeric:
+            w.check("VALUE_INVALID" in errs, L_NUM_BAD, inp, got, "VALUE_INVALID error")
+    elif kind == "invalid":
+        w.check("UNITS_INVALID" in errs, "C11.reject.units_invalid", inp, got, "UNITS_INVALID error")
+        if valid:
+            w.check("VALUE_INVALID" not in errs, L_NUM_OK, inp, got, "no VALUE_INVALID (the number is well-formed)")
+        elif numeric:
+            w.check("VALUE_INVALID" in errs, L_NUM_BAD, inp, got, "VALUE_INVALID error")
+        w.check("value_exc" not in obs and obs["value"] is None, "C11.conv.unrecognised_unit_is_none", inp,
+                obs.get("value_exc", obs["value"]), None)
+        return
+    else:   # bare numeral
+        if valid:
+            if got != [("UNITS_MISSING", "W")]:
+                clause = L_NUM_OK if (reference_ok() and "VALUE_INVALID" in errs) else "C11.bare.only_units_missing_warning"
+                w.fail(clause, inp, got, [["UNITS_MISSING", "W"]])
+        else:
+            w.check(("UNITS_MISSING", "W") in got, "C11.bare.only_units_missing_warning", inp, got,
+                    "the UNITS_MISSING warning (next to the complaint about the number)")
+            if numeric:
+                w.check("VALUE_INVALID" in errs, L_NUM_BAD, inp, got, "VALUE_INVALID error")
+    # ---- what the conversion says
+    if not float_accepts(numeral):
+        w.check("value_exc" not in obs and obs["value"] is None, L_NUM_NONE, inp, obs.get("value_exc", obs["value"]), None)
+        return
+    if not valid:
+        return
+    if unit_ok:
+        declared = [r for r in readings if r[0]["factor_text"] is not None]
+        if not declared or len(declared) != len(readings):
+            w.check("value_exc" not in obs, "C11.conv.no_factor_no_exception", inp, obs.get("value_exc"), None)
+            return
+        exp = sorted({float(numeral) * orc.factor(*r) for r in readings})
+    else:
+        dflt = None
+        if len(classes) == 1:
+            c = orc.x["classes"][classes[0]]
+            dflt = next((u for u in c["units"] if u["name"] == c["default"]), None)
+        if dflt is None or dflt["factor_text"] is None:
+            w.check("value_exc" not in obs, "C11.conv.no_factor_no_exception" if dflt is not None else
+                    "C11.conv.bare_number_without_default_unit_no_exception", inp, obs.get("value_exc"), None)
+            return
+        exp = [float(numeral) * _factor(dflt["factor_text"])]
+    if "value_exc" in obs:
+        w.fail("C11.conv.defined_no_exception", inp, obs["value_exc"], exp)
+    else:
+        val = obs["value"]
+        w.check(val is not None and any(_close(val, e) for e in exp), "C11.conv.equals_number_times_factors", inp, val, exp)
+
+
+def run_numerals(w, version, mode, only_tag=None):
+    """EVERY unit tag of the schema (asked of the loaded schema) x numerals x all unit kinds.
+    mode 'full': all numerals for every tag;
+    mode 'tags': all numerals for every tag WITHOUT a value class, for the others one numeral per exponent shape (sign and
+                 mantissa rotate with the tag, so that the tags of a schema together see every sign and mantissa);
+    mode 'classes': as 'tags', and all numerals also for the first tag of every distinct set of unit classes"""
+    orc = oracle(version)
+    tags = [t for t in schema_unit_tags(version) if not t["deprecated"] and (only_tag is None or t["tag"] == only_tag)]
+    tags = [t for t in tags if all(c in orc.x["classes"] for c in t["classes"])]
+    numerals = all_numerals()
+    n0 = w.evaluations
+    seen_sets = set()
+    for ti, t in enumerate(tags):
+        no_vc = not t["value_classes"]
+        key = tuple(t["classes"])
+        first_of_set = key not in seen_sets
+        seen_sets.add(key)
+        if mode == "full" or no_vc or (mode == "classes" and first_of_set):
+            chosen = list(enumerate(numerals))
+        else:
+            chosen = []
+            for ei, e in enumerate(EXPONENTS):
+                r = ti * len(EXPONENTS) + ei
+                num = SIGNS[r % 3] + MANTISSAS[(r // 3) % 6] + e
+                chosen.append((numerals.index(num), num))
+        for ni, num in chosen:
+            for kind, (unit_text, before) in numeral_unit_choices(orc, t["classes"], ni + ti).items():
+                eval_numeral(w, version, t, num, kind, unit_text, before)
+    return w.evaluations - n0, len(tags), [t["tag"] for t in tags if not t["value_classes"]], len(seen_sets)
+
+
+# ----------------------------------------------------------------------------------------------------------------
 # enumeration
 # ----------------------------------------------------------------------------------------------------------------
 def _case_variants(text, declared):
@@ -617,6 +842,33 @@ def run_schema(w, version, full, only_tag=None):
     return n, len(tags)
 
 
+def _numerals_job(args):
+    version, mode, only_tag, tier, seed = args
+    w2 = Workload("C11", tier, seed)
+    _num_stats.clear()
+    try:
+        n, nt, novc, nsets = run_numerals(w2, version, mode, only_tag)
+    finally:
+        _cleanup()
+    return {"version": version, "mode": mode, "n": n, "nt": nt, "novc": novc, "nsets": nsets, "failures": w2.failures,
+            "per_clause": w2._per_clause, "evaluations": w2.evaluations, "distinct": list(w2.distinct),
+            "samples": w2.samples[:1], "stats": dict(_num_stats)}
+
+
+def _merge_job(w, r):
+    w.evaluations += r["evaluations"]
+    w.distinct.update(tuple(k) if isinstance(k, list) else k for k in r["distinct"])
+    if len(w.samples) < 12:
+        w.samples.extend(r["samples"])
+    for clause, cnt in r["per_clause"].items():
+        w._per_clause[clause] = w._per_clause.get(clause, 0) + cnt
+    for rec in r["failures"]:
+        if sum(1 for f in w.failures if f["clause"] == rec["clause"]) < w.max_failures_per_clause:
+            w.failures.append(rec)
+    for k, v in r["stats"].items():
+        _num_stats[k] = _num_stats.get(k, 0) + v
+
+
 def run(w: Workload):
     w.rule = ("for each schema: every non-deprecated value-taking tag with unit classes (read from the XML) x every unit of its "
               "classes x every permitted SI prefix (or none) x {lower, Capitalised, UPPER, as-declared} x {singular, plural} for "
@@ -625,7 +877,18 @@ def run(w: Workload):
               "the wrong side of the number) and the bare number; extra text around a VALID unit: for every tag x every unit "
               "(declared spelling and with prefix milli/kilo resp. m/k) x {<n> <junk> <unit> for 5 junk words, <n> <unit> <unit>, "
               "<n> <other valid unit> <unit>, <n> <prefix> <unit>, two and three blanks, and the canonical <n> <unit>}; "
+              "numerals: for every unit tag the loaded schema reports (all bundled schemas; including tags with a unit class but "
+              "no value class) x sign {none,+,-} x mantissa {1, 1., 1.5, .5, 0, 007} x exponent {none, e3, E3, e+3, E+3, e-3, "
+              "e+03, e, e+} (quick: all 162 for one tag per unit-class set of 8.3.0 and for the tags without a value class, 9 "
+              "per other tag) x {valid unit, prefixed unit, plural, invalid unit, no unit}; "
               "a case = one annotation text 'Tag/<number> <unit>', distinct by (schema, text)")
+    # numeral shapes (sign x mantissa x exponent) x unit kinds over every unit tag of every bundled schema: one job per
+    # schema, run by a small pool next to the parts below (each job has its own Workload; merged at the end)
+    jobs = [(v, "full" if not w.quick else ("classes" if v == "8.3.0" else "tags"), None, w.tier, w.seed)
+            for v in ["8.3.0"] + [x for x in STANDARD + LIBRARIES if x != "8.3.0"]]
+    jobs += [(v, "full", "Weight", w.tier, w.seed) for v in SYNTHETIC]
+    pool = multiprocessing.Pool(min(6 if w.quick else 12, max(1, multiprocessing.cpu_count() - 2)))
+    numerals_async = pool.map_async(_numerals_job, jobs, chunksize=1)
     try:
         full_versions = ["8.3.0"] if w.quick else STANDARD + LIBRARIES
         sampled = [v for v in STANDARD + LIBRARIES if v not in full_versions]
@@ -645,9 +908,33 @@ def run(w: Workload):
                    bound="8.3.0 with Weight/# given " + ("currencyUnits (prefix-type unit '$')" if "currency" in v else
                                                           "two unit classes (weightUnits, timeUnits)"),
                    exhaustive=True)
+        # numeral shapes: computed meanwhile by the pool started at the top
+        for r in numerals_async.get():
+            _merge_job(w, r)
+            v, mode = r["version"], r["mode"]
+            if v in SYNTHETIC:
+                w.part("numerals, schema %s" % v, cases=r["n"], bound="Weight/# (see above) x all 162 numerals x unit kinds; "
+                       "the prefix-type unit stands before the numeral", exhaustive=True)
+                continue
+            w.part("numerals, schema %s" % v, cases=r["n"],
+                   bound="every non-deprecated unit tag the loaded schema reports (%d; without a value class: %s) x %s x unit "
+                         "kinds {valid unit, valid prefixed unit, plural, invalid unit, none} (units rotate through the tag's "
+                         "classes)" % (r["nt"], r["novc"] or "none",
+                                       "all 162 numerals" if mode == "full" else
+                                       "all 162 numerals for the tags without a value class%s, one numeral per exponent shape "
+                                       "(9; sign and mantissa rotating) for the other tags"
+                                       % (" and for one tag of each of the %d distinct unit-class sets" % r["nsets"]
+                                          if mode == "classes" else "")),
+                   exhaustive=(mode == "full"))
     finally:
+        pool.terminate()
+        pool.join()
         _cleanup()
     w.exhaustive = not w.quick
+    w.part("numerals: totals (included in the 'numerals' parts above)", cases=sum(_num_stats.values()),
+           bound="numerals = sign {none,+,-} x mantissa %s x exponent %s (valid iff float() accepts it and it matches the "
+                 "decimal-numeral grammar: 126 valid, 36 not); cases by numeral verdict / unit kind: %s"
+                 % (MANTISSAS, EXPONENTS, dict(_num_stats)), exhaustive=False)
     w.part("extra text before a valid unit (included in the schema parts above)", cases=sum(_extra_stats.values()),
            bound="per shape: %s; junk words %s; expected: an error with code in %s (two/three blanks: any error), the "
                  "canonical form accepted" % (dict(_extra_stats), JUNK, list(EXTRA_OK_CODES)), exhaustive=False)
@@ -665,6 +952,10 @@ def run(w: Workload):
     ]
     w.not_covered += [
         "non-numeric values in front of a unit (value classes other than numericClass), placeholders '#'",
+        "an ill-formed numeral on a tag that has a unit class but NO value class (Sampling-rate): the schema puts no rule on "
+        "the value, no verdict is required (observed: 'Sampling-rate/1e Hz' is accepted silently); texts float() accepts "
+        "but the grammar does not (inf, nan, 1_0, digits outside ASCII such as '\u0661'): only the enumerated shapes are judged "
+        "(observed: 'Duration/\u0661 s' is accepted and converts to 1.0 - the word pattern's \\d is not limited to 0-9)",
         "plural spellings of unit names that are not in the PLURALS table",
         "units reached through Def-expand/definition placeholders and through TabularInput (C07 covers the file path)",
         "deprecated tags and deprecated units (skipped)",
@@ -673,6 +964,14 @@ def run(w: Workload):
 
 def replay(w: Workload, case: dict):
     inp = case["input"]
+    if inp.get("part") == "numerals":
+        try:
+            t = {"tag": inp["tag"], "classes": inp["classes"], "value_classes": inp["value_classes"]}
+            eval_numeral(w, inp["schema"], t, inp["numeral"], inp["kind"], inp["unit"], inp["before"], count=False)
+            w.failures = [f for f in w.failures if f["clause"] == case["clause"]]
+        finally:
+            _cleanup()
+        return
     if inp.get("part") == "extra_text":
         try:
             eval_extra_text(w, inp["schema"], inp["tag"], inp["classes"], [inp["literal"]], count=False,
